@@ -99,6 +99,8 @@ var c12Sites = []c12Site{
 	{"jobs.<job_id>.defaults.run", "job defaults.run.working-directory", c12JobHead + "    defaults:\n      run:\n        working-directory: %s\n" + c12Steps},
 	{"jobs.<job_id>.strategy", "strategy.fail-fast", c12JobHead + "    strategy:\n      fail-fast: %s\n      matrix:\n        a: [1]\n" + c12Steps},
 	{"jobs.<job_id>.strategy", "strategy.max-parallel", c12JobHead + "    strategy:\n      max-parallel: %s\n      matrix:\n        a: [1]\n" + c12Steps},
+	{"jobs.<job_id>.strategy", "strategy.fail-fast (no matrix)", c12JobHead + "    strategy:\n      fail-fast: %s\n" + c12Steps},
+	{"jobs.<job_id>.strategy", "strategy.max-parallel (no matrix)", c12JobHead + "    strategy:\n      max-parallel: %s\n" + c12Steps},
 	{"jobs.<job_id>.strategy", "matrix row value", c12JobHead + "    strategy:\n      matrix:\n        a:\n          - %s\n" + c12Steps},
 	{"jobs.<job_id>.strategy", "matrix (scalar)", c12JobHead + "    strategy:\n      matrix: %s\n" + c12Steps},
 	{"jobs.<job_id>.strategy", "matrix include value", c12JobHead + "    strategy:\n      matrix:\n        include:\n          - a: %s\n" + c12Steps},
@@ -109,6 +111,9 @@ var c12Sites = []c12Site{
 	{"jobs.<job_id>.container", "container.volumes", c12JobHead + "    container:\n      image: x\n      volumes:\n        - %s\n" + c12Steps},
 	{"jobs.<job_id>.container.credentials", "container.credentials.password", c12JobHead + "    container:\n      image: x\n      credentials:\n        username: u\n        password: %s\n" + c12Steps},
 	{"jobs.<job_id>.container.env.<env_id>", "container.env", c12JobHead + "    container:\n      image: x\n      env:\n        A: %s\n" + c12Steps},
+	{"jobs.<job_id>.container", "container.options (no image)", c12JobHead + "    container:\n      options: %s\n" + c12Steps},
+	{"jobs.<job_id>.container.env.<env_id>", "container.env (no image)", c12JobHead + "    container:\n      env:\n        A: %s\n" + c12Steps},
+	{"jobs.<job_id>.environment.url", "environment url (no name)", c12JobHead + "    environment:\n      url: %s\n" + c12Steps},
 	{"jobs.<job_id>.services", "services (scalar)", c12JobHead + "    services: %s\n" + c12Steps},
 	{"jobs.<job_id>.services", "service image", c12JobHead + "    services:\n      s:\n        image: %s\n" + c12Steps},
 	{"jobs.<job_id>.services", "service options", c12JobHead + "    services:\n      s:\n        image: x\n        options: %s\n" + c12Steps},
